@@ -32,7 +32,8 @@ def coarse(kind, nat):
     return np.array([0.5 * (nat[i] + nat[i + 1]) + 0.2 * (nat[i + 1] - nat[i]) for i in range(2, 37, 5)])
 
 
-GRIDCFG = ['one-uniform', 'one-log', 'two-nested-uniform', 'two-offgrid-uniform', 'two-offgrid-log']
+GRIDCFG = ['one-uniform', 'one-log', 'two-nested-uniform', 'two-offgrid-uniform', 'two-offgrid-log',
+           'two-offgrid-coarsefirst-uniform']
 MAGS = {'thin': 1e-31, 'tau1': 1e-27, 'mixed': 1.0}
 
 
@@ -63,6 +64,8 @@ def build(case):
     gases = [['H2O', ['const', 1e-4]]]
     if case['cfg'].startswith('two'):
         gases.append(['CH4', ['const', 1e-4]])
+    if 'coarsefirst' in case['cfg']:
+        gases.reverse()
     spec = {'kind': case['kind'], 'N': 4, 'T': ['dec'], 'gases': gases, 'contribs': ['abs', 'ray'], 'ngauss': 2}
     return fx.build_model(spec)
 
